@@ -20,6 +20,7 @@ spec fn rp_spec(a: Associativity) -> int { match a { Associativity::Left(x) => 2
 """,
     "result": "",
     "repcfg": "",
+    "justcfg": "",
     # Rich::merge: the field types the contract does not speak about are opaque; the callee flat_merge is an
     # assumed external function WITHOUT a contract (its result is unconstrained)
     "rich_merge": """
@@ -68,6 +69,10 @@ TARGETS = {
         "at_most": "        ensures r.at_most == Some(n), r.at_least == self.at_least,",
         "exactly": "        ensures r.at_least == Some(n), r.at_most == Some(n),",
     }, ["C02", "C15"]),
+    # C15: "configure() ... honours configuration": the sequence set through the configuration is the one in force
+    "justcfg": ("src/primitive.rs", [r"^pub struct JustCfg<T> \{"], r"^impl<T> JustCfg<T> \{", {
+        "seq": "        ensures r.seq == Some(new_seq),",
+    }, ["C15"]),
 }
 # Units made of trait-impl methods of a foreign type (`impl Input for &[T]`): an inherent impl is impossible and
 # Verus cannot ingest the Input trait (GAT front-end crash), so each method is lifted to a free function: the
@@ -88,7 +93,7 @@ FREE_UNITS = {
         },
         "types": [("src/span.rs", r"^pub struct SimpleSpan<T = usize, C = \(\)> \{")],
         # whole trait impls taken as they are (contract spliced into the one method)
-        "impls": [("src/span.rs", r"^impl<T> From<Range<T>> for SimpleSpan<T> \{", "from", "")],
+        "impls": [("src/span.rs", r"^impl<T> From<Range<T>> for SimpleSpan<T> \{", {"from": ""})],
         "fns": [
             ("src/input.rs", r"^impl<'src, T> Input<'src> for &'src \[T\] \{", "next_maybe",
              "    requires old(this)@.len() <= usize::MAX,\n    ensures *final(this) == *old(this),\n        (*old(cursor) < old(this)@.len()) ==> (r == Some(&old(this)@[*old(cursor) as int]) && *final(cursor) == *old(cursor) + 1),\n        (*old(cursor) >= old(this)@.len()) ==> (r.is_none() && *final(cursor) == *old(cursor)),"),
@@ -131,8 +136,22 @@ def _array_twin(d):
 
 
 FREE_UNITS["array_input"] = _array_twin(FREE_UNITS["slice_input"])
+# the collecting container the statement of C02 speaks about ("the collected vector"): the real trait taken whole, the
+# real impl for Vec<T> taken whole with the contract spliced in - pushing appends exactly the item, for vectors of
+# every length; a fresh container is empty
+FREE_UNITS["container_vec"] = {
+    "props": ["C02"],
+    "generics": "", "assoc": {}, "fns": [],
+    "types": [("src/container.rs", r"^pub trait Container<T>: Default \{")],
+    "impls": [("src/container.rs", r"^impl<T> Container<T> for Vec<T> \{", {
+        "with_capacity": "        ensures r@.len() == 0,",
+        "push": "        ensures final(self)@ == old(self)@.push(item),",
+    })],
+    "prelude": "",
+    "note": "the trait Container and `impl<T> Container<T> for Vec<T>` taken whole (doc comments and attributes dropped); trusted: vstd's assumed specifications of Vec::with_capacity and Vec::push",
+}
 for _u, _d in FREE_UNITS.items():
-    TARGETS[_u] = (_d["fns"][0][0], None, None, {**{f[2]: f[3] for f in _d["impls"]}, **{f[2]: f[3] for f in _d["fns"]}}, _d["props"])
+    TARGETS[_u] = ((_d["fns"] or _d["impls"])[0][0], None, None, {**{k: v for f in _d["impls"] for k, v in f[2].items()}, **{f[2]: f[3] for f in _d["fns"]}}, _d["props"])
     SPEC_PRELUDE[_u] = _d["prelude"]
     OVERRIDES[_u] = {"note": _d["note"]}
 
@@ -170,8 +189,13 @@ def build_free_unit(unit, repo):
         # visibility kept (the specification of the conversion is a public spec function over this type)
         parts.append("\n".join(l for l in text.split("\n") if not l.strip().startswith(("///", "#["))))
         where.append(f"{file}:{line}")
-    for file, impl_re, fn, contract in d["impls"]:
+    for file, impl_re, contracts in d["impls"]:
         impl_text, impl_line, _ = extract.cut_item(src_of(file), impl_re)
+        for fn, contract in contracts.items():
+            sig, fbody, off = extract.cut_fn(impl_text, fn)
+            if contract:
+                impl_text = impl_text.replace(sig + fbody, extract.with_contract(sig, fbody, contract), 1)
+            where.append(f"{file}:{impl_line + off} fn {fn}")
         parts.append(extract.strip_attrs_docs_vis(impl_text))
         where.append(f"{file}:{impl_line} (whole impl)")
     for file, impl_re, fn, contract in d["fns"]:
